@@ -30,7 +30,7 @@ SPEC = {
     'decided': ['args2cmd transducer table', 'quoting decision truth table', 'complement computed on every path', 'per-argument buffer reset', 'sh-safe class subset of shlex set, no anchors', 'raw emission only when nothing unsafe', 'empty argument branch',
                 'single-quote splice', 'style dispatch', 'cmd backslash doubling before quotes', 'gzip container agreement',
                 'range_end is None test'],
-    'declined': ['args2cmd automaton equivalence with the MS C runtime', 'int list round trip / canonical form'],
+    'declined': ['int list round trip / canonical form'],
     'trusted_base': ['shlex safe set of POSIX sh', 'zlib wbits container table', 're._parser'],
     'assumptions': [], 'exhaustive': True,
 }
